@@ -37,6 +37,10 @@ def find_close_all(prog):
         for fi in fis:
             if fi.is_async and any(isinstance(n, ast.Attribute) and n.attr == "aclose" for n in ast.walk(fi.node)):
                 return fi
+    # ... or a module-level coroutine of the same module that is handed the runners
+    for q, fi in prog.functions.items():
+        if fi.cls is None and fi.module is cls.module and fi.is_async and any(isinstance(n, ast.Attribute) and n.attr == "aclose" for n in ast.walk(fi.node)):
+            return fi
     raise Undecided("no close-all coroutine (awaiting runner.aclose()) in MetaRunner", cls.node)
 
 
@@ -493,9 +497,13 @@ def thread_runner(chk):
             if not (isinstance(d, ast.Constant) and d.value is True):
                 chk.bad(rule, cls.qual, "payload threads are not daemon threads (daemon=%s): a blocked thread payload keeps the process from terminating" % (util.unparse(d) if d is not None else "unset"), node=node, stmt="daemon")
                 ok = False
-        if isinstance(node, ast.Call) and isinstance(node.func, ast.Attribute) and node.func.attr == "join" and not node.args:
-            chk.bad(rule, cls.qual, "payload threads are joined: a blocked thread payload prevents termination", node=node, stmt="join")
-            ok = False
+        if isinstance(node, ast.Call) and isinstance(node.func, ast.Attribute) and node.func.attr == "join" and not isinstance(node.func.value, (ast.Constant, ast.JoinedStr)) and "path" not in util.unparse(node.func.value):
+            # thread.join() / thread.join(timeout): only a positive literal timeout bounds the wait
+            to = node.args[0] if node.args else next((k.value for k in node.keywords if k.arg == "timeout"), None)
+            bounded = isinstance(to, ast.Constant) and isinstance(to.value, (int, float)) and not isinstance(to.value, bool) and to.value >= 0
+            if not bounded:
+                chk.bad(rule, cls.qual, "payload threads are joined%s: a blocked thread payload prevents termination" % (" with the timeout %s, which is not a literal bound (None waits forever)" % util.unparse(to) if to is not None else ""), node=node, stmt="join")
+                ok = False
         if isinstance(node, ast.Assign) and any(isinstance(t, ast.Attribute) and t.attr == "daemon" for t in node.targets) and not (isinstance(node.value, ast.Constant) and node.value.value is True):
             chk.bad(rule, cls.qual, "thread.daemon is set to %s" % util.unparse(node.value), node=node, stmt="daemon-assign")
             ok = False
